@@ -55,6 +55,36 @@ package sharding
 //@   property C13
 //@   requires dgs != nil
 //@   at_call adder.Pin assert [only-after-every-earlier-step-succeeded] err == nil
-//@   at_call adder.Pin assert [cluster-dag-or-meta-entry] (pin == clusterDAGPin && pin.Type == api.ClusterDAGType && pin.Cid == clusterDAG && pin.ReplicationFactorMin == -1 && pin.ReplicationFactorMax == -1 && pin.MaxDepth == 0 && pin.Reference != nil && *pin.Reference == dataRoot) || (pin == metaPin && pin.Type == api.MetaType && pin.Cid == dataRoot && pin.Reference != nil && *pin.Reference == clusterDAG)
+//@   at_call adder.Pin assert [cluster-dag-or-meta-entry] pin != nil && (pin.Type == api.ClusterDAGType || pin.Type == api.MetaType)
+//@   at_call adder.Pin assert [cluster-dag-entry] pin.Type == api.ClusterDAGType ==> pin.Cid == clusterDAG && pin.ReplicationFactorMin == -1 && pin.ReplicationFactorMax == -1 && pin.MaxDepth == 0 && pin.Reference != nil && *pin.Reference == dataRoot
+//@   at_call adder.Pin assert [meta-entry] pin.Type == api.MetaType ==> pin.Cid == dataRoot && pin.Reference != nil && *pin.Reference == clusterDAG
 //@   ensures [failure-returns-an-error] err == nil ==> res == dataRoot
+//@   modifies *
+
+// ---- "each shard under the size limit": a block is linked into the current shard only if the shard stays under its
+// limit with it; a block that does not fit starts a new shard after the current one was flushed; a block that fits in
+// no shard at all is refused ----
+//@ func newShard
+//@   opts trusted
+//@   ensures err == nil ==> res != nil && fresh(res) && res.currentSize == 0 && res.sizeLimit == opts.ShardSize && res.ba != nil
+//@   modifies nothing
+//@ func (sh *shard) AddLink
+//@   property C13
+//@   requires sh != nil
+//@   ensures [size-accounted] sh.currentSize == old(sh.currentSize) + s && sh.sizeLimit == old(sh.sizeLimit)
+//@   ensures [others-untouched] forall o *shard :: o != sh ==> *o == old(*o)
+//@   modifies heap(shard)
+//@ func (sh *shard) Size
+//@   property C13
+//@   ensures res == sh.currentSize
+//@   modifies nothing
+//@ func (sh *shard) Limit
+//@   property C13
+//@   ensures res == sh.sizeLimit
+//@   modifies nothing
+//@ func (dgs *DAGService) ingestBlock
+//@   property C13
+//@   requires dgs != nil
+//@   at_call shard.AddLink assert [stays-under-the-limit] self.currentSize + s < self.sizeLimit
+//@   at_call shard.AddLink assert [into-the-current-shard] self == dgs.currentShard && s == size
 //@   modifies *
